@@ -20,3 +20,19 @@ Lemma placeholder_refuted :
   | _, _ => False
   end.
 Proof. vm_compute. repeat split; reflexivity. Qed.
+
+(** x*x (op) e = 1001;  y*y (op) e = 1002 (all three with an initial guess).  Unmarked: one NLA system of two equations
+    (they share e).  With e marked as external the two equations share nothing that is left: two NLA systems, no
+    siblings, a valid NLA model — the grouping is computed after the external unknowns have been pruned. *)
+Definition sysN : system :=
+  [ mkComp [mkVar 0 0 IConst; mkVar 1 1 IConst; mkVar 2 2 IConst]
+           [mkEqn 1001 (EOp (EOp (EVar 0) (EVar 0)) (EVar 2)) ECn; mkEqn 1002 (EOp (EOp (EVar 1) (EVar 1)) (EVar 2)) ECn] ].
+Definition mark_e : list xmark := [mkXmark (XLocal (0, 2)) []].
+
+Lemma grouping_example :
+  let nla r := map (fun e => (ae_id e, ae_vars e, ae_nla e, ae_sibs e)) (filter (fun e => qtype_eqb (ae_type e) QNla) (r_eqs r)) in
+  option_map (fun r => (r_type r, nla r)) (result_of (analyse_x true sysN [])) =
+    Some (MNla, [(Some 1001, [(0, 0); (0, 2)], Some 0, [1]); (Some 1002, [(0, 1); (0, 2)], Some 0, [0])]) /\
+  option_map (fun r => (r_type r, nla r)) (result_of (analyse_x true sysN mark_e)) =
+    Some (MNla, [(Some 1001, [(0, 0)], Some 0, []); (Some 1002, [(0, 1)], Some 1, [])]).
+Proof. vm_compute. split; reflexivity. Qed.
